@@ -112,6 +112,14 @@ def functions():
                 out |= set(ids)
         return out
 
+    def srd_moma(m, items, p):
+        df = fa.single_reaction_deletion(m, items, method="linear moma", solution=m._cv_ref, processes=p)
+        return {list(ids)[0]: (float(g), 1.0 if s == "optimal" else 0.0) for ids, g, s in zip(df.ids, df.growth, df.status)}
+
+    def sgd_moma(m, items, p):
+        df = fa.single_gene_deletion(m, items, method="linear moma", solution=m._cv_ref, processes=p)
+        return {list(ids)[0]: (float(g), 1.0 if s == "optimal" else 0.0) for ids, g, s in zip(df.ids, df.growth, df.status)}
+
     def ess_r(m, items, p):
         got = {r.id for r in fa.find_essential_reactions(m, processes=p)}
         skip = _at_threshold(m, fa.single_reaction_deletion(m, processes=1))
@@ -128,6 +136,8 @@ def functions():
         "find_blocked_reactions": (blocked, "reactions", True),
         "single_reaction_deletion": (srd, "reactions", True),
         "single_gene_deletion": (sgd, "genes", True),
+        "single_reaction_deletion(linear moma)": (srd_moma, "reactions", True),
+        "single_gene_deletion(linear moma)": (sgd_moma, "genes", True),
         "double_reaction_deletion": (drd, "reactions-few", False),
         "double_gene_deletion": (dgd, "genes", False),
         "find_essential_reactions": (ess_r, "all", False),
@@ -177,6 +187,33 @@ def check_events(acc, tapx, expected_tasks, ident, fname):
     for e in ev:
         per_worker[e["pid"]] = per_worker.get(e["pid"], 0) + 1
     return max(per_worker.values()) >= 2 if per_worker else False
+
+
+def moma_not_unique(model, fname, item, values):
+    """Proves the mechanism of the recorded linear-MOMA finding for one item: every reported
+    (growth, status) is an admissible answer - status optimal and growth inside the exact
+    range of the objective over *all* minimal-adjustment solutions of the knocked-out
+    problem (cv.oracles.moma_exact) - and that range is a proper interval."""
+    from cv import oracles
+
+    if "gene" in fname:
+        absent = {item}
+        knocked = [r.id for r in model.reactions if r.gene_reaction_rule and not r.gpr.eval(absent)]
+        trees = getattr(model, "_cv_rules", None)
+        if trees is not None:  # independent of cobrapy's evaluator
+            knocked = [rid for rid, t in trees.items() if t is not None and not gen.gpr_eval(t, absent)]
+    else:
+        knocked = [item]
+    P = oracles.Problem(model, knocked=knocked)
+    ref = {r.id: float(model._cv_ref.fluxes[r.id]) for r in model.reactions}
+    m = oracles.moma_exact(P, ref)
+    if m is None:
+        return False
+    D, gmin, gmax = m
+    if gmin == gmax:
+        return False
+    slack = 1e-6 * max(1.0, abs(float(gmin)), abs(float(gmax)))
+    return all(v[1] == 1.0 and float(gmin) - slack <= v[0] <= float(gmax) + slack for v in values)
 
 
 def run_function(acc, rng, model, fname, F, ident0, tmpdir, rec_sig):
@@ -258,6 +295,15 @@ def run_function(acc, rng, model, fname, F, ident0, tmpdir, rec_sig):
             acc.violation(f"C14/{fname}/items-differ-between-schedules", f"{fname}: items {sorted(set(res) ^ set(base_res))[:5]} appear in one schedule only", ident)
             continue
         bad = [(k, res[k], base_res[k]) for k in res if not all(near(a, b) for a, b in zip(res[k], base_res[k]))]
+        if bad and "moma" in fname:
+            proved = [b for b in bad if moma_not_unique(model, fname, b[0], [b[1], b[2]])]
+            if proved:
+                acc.violation(
+                    f"C14/{fname.split('(')[0]}(linear moma)/growth-not-unique-at-the-minimal-adjustment-optimum",
+                    f"{fname}: {proved[0][0]} = {proved[0][1]} with {p} processes / this order, {proved[0][2]} serially; both lie in the exact range of the objective over all minimal-adjustment solutions",
+                    dict(ident, item=proved[0][0], parallel=list(proved[0][1]), serial=list(proved[0][2]), n_differing=len(proved)),
+                )
+            bad = [b for b in bad if b not in proved]
         if bad:
             acc.violation(
                 f"C14/{fname}/value-depends-on-schedule",
@@ -278,6 +324,13 @@ def run_function(acc, rng, model, fname, F, ident0, tmpdir, rec_sig):
                 acc.violation(f"C14/{fname}/single-item-raised/{type(e).__name__}", f"{fname}([{it}]) raised {type(e).__name__}: {str(e)[:120]}", dict(ident0, function=fname, item=it))
                 continue
             k = it
+            if "moma" in fname and k in one and k in base_res and not all(near(a, b) for a, b in zip(one[k], base_res[k])) and moma_not_unique(model, fname, k, [one[k], base_res[k]]):
+                acc.violation(
+                    f"C14/{fname.split('(')[0]}(linear moma)/growth-not-unique-at-the-minimal-adjustment-optimum",
+                    f"{fname}: {it} alone gives {one.get(k)}, in the full list {base_res.get(k)}; both lie in the exact range of the objective over all minimal-adjustment solutions",
+                    dict(ident0, function=fname, item=it),
+                )
+                continue
             if k not in one or k not in base_res or not all(near(a, b) for a, b in zip(one[k], base_res[k])):
                 acc.violation(f"C14/{fname}/item-alone-differs-from-item-in-list", f"{fname}: {it} alone gives {one.get(k)}, in the full list {base_res.get(k)}", dict(ident0, function=fname, item=it))
 
@@ -340,6 +393,8 @@ def run_shard(desc, acc):
                 model = gen.build(rec)
             ident0 = {"base": desc["base"], "case": case}
             sig = gen.recipe_sig(rec)
+            model._cv_ref = model.optimize()  # one fixed reference distribution for linear MOMA
+            model._cv_rules = {d["id"]: gen._tuplify(d["gpr"]) for d in rec["rxns"]}
             for fname in rng.sample(sorted(F), 3):
                 run_function(acc, rng, model, fname, F, ident0, tmpdir, sig)
             if case == first:
